@@ -238,13 +238,23 @@ abbrev RI (a b : List Item) : Prop := a.map f = b.map f
 abbrev RP {α} (a b : α × List Item) : Prop := a.1 = b.1 ∧ a.2.map f = b.2.map f
 abbrev RT {α} (a b : α × List Item × List Item) : Prop :=
   a.1 = b.1 ∧ a.2.1.map f = b.2.1.map f ∧ a.2.2.map f = b.2.2.map f
+/-- as `RT`, with the aliased fragments (third component) equal: `aliasMember` reads them -/
+abbrev RT' {α} (a b : α × List Item × List Item) : Prop :=
+  a.1 = b.1 ∧ a.2.1.map f = b.2.1.map f ∧ a.2.2 = b.2.2
 
-theorem calc_congr {c c' : Ctx} (H : CalcAgree f c c') : ∀ fuel,
+theorem aliasMember_congr {c c' : Ctx} (h : renderField c' = renderField c) (hcs : c'.cs = c.cs) :
+    aliasMember c' = aliasMember c := by
+  funext a
+  unfold aliasMember
+  rw [h, hcs]
+
+theorem calc_congr_strong {c c' : Ctx} (H : CalcAgree f c c') : ∀ fuel,
     (∀ name pfx t sels, ORel (RI f) (calcSelection c fuel name pfx t sels) (calcSelection c' fuel name pfx t sels)) ∧
     (∀ name pfx vsels vts, ORel (RP f) (calcVariants c fuel name pfx vsels vts) (calcVariants c' fuel name pfx vsels vts)) ∧
-    (∀ sname pfx vt vsels, ORel (RT f) (calcVariantSels c fuel sname pfx vt vsels) (calcVariantSels c' fuel sname pfx vt vsels)) ∧
+    (∀ sname pfx vt vsels, ORel (RT' f) (calcVariantSels c fuel sname pfx vt vsels) (calcVariantSels c' fuel sname pfx vt vsels)) ∧
     (∀ pfx t sels, ORel (RP f) (calcFields c fuel pfx t sels) (calcFields c' fuel pfx t sels)) := by
   have hrf := renderField_congr H.skipNone H.deprecation
+  have ham := aliasMember_congr hrf H.cs
   intro fuel
   induction fuel with
   | zero =>
@@ -280,7 +290,7 @@ theorem calc_congr {c c' : Ctx} (H : CalcAgree f c c') : ∀ fuel,
       | nil => unfold calcVariants; exact ORel.pure ⟨rfl, rfl⟩
       | cons vt rest =>
         unfold calcVariants
-        simp only [H.s, H.q]
+        simp only [H.s, H.q, ham]
         apply ORel.bind_same; intro vname
         have hrest : ∀ (v : RVariant) (i i' : List Item), i.map f = i'.map f →
             ORel (RP f)
@@ -305,17 +315,12 @@ theorem calc_congr {c c' : Ctx} (H : CalcAgree f c c') : ∀ fuel,
             obtain ⟨h1, h2, h3⟩ := hr
             simp only at h1 h2 h3
             subst h1
-            cases r3 with
-            | nil =>
-              cases r3' with
-              | nil => exact hrest _ _ _ (by simp only [List.map_append, H.render, h2])
-              | cons y ys => simp at h3
-            | cons x xs =>
-              cases r3' with
-              | nil => simp at h3
-              | cons y ys =>
-                simp only [List.map_cons, List.cons.injEq] at h3
-                exact hrest _ _ _ (by simp only [List.map_cons, h3.1, h2])
+            subst h3
+            simp only []
+            split
+            · exact hrest _ _ _ (by simp only [List.map_cons, h2])
+            · apply ORel.bind_same; intro extra
+              exact hrest _ _ _ (by simp only [List.map_append, H.render, h2])
     · intro sname pfx vt vsels
       cases vsels with
       | nil => unfold calcVariantSels; exact ORel.pure ⟨rfl, rfl, rfl⟩
@@ -329,12 +334,12 @@ theorem calc_congr {c c' : Ctx} (H : CalcAgree f c c') : ∀ fuel,
           · apply ORel.bind_same; intro fr
             simp only [pure_bind]
             apply ORel.bind (ihVS sname pfx vt rest); intro a b hab
-            exact ORel.pure ⟨by rw [hab.1], by simp only [List.map_append, hab.2.1], by simp only [List.map_append, hab.2.2]⟩
+            exact ORel.pure ⟨by rw [hab.1], by simp only [List.map_append, hab.2.1], by rw [hab.2.2]⟩
           · apply ORel.bind (ihF _ vt sub); intro x y hxy
             simp only [pure_bind]
             apply ORel.bind (ihVS sname pfx vt rest); intro a b hab
             exact ORel.pure ⟨by rw [hab.1, hxy.1], by simp only [List.map_append, hab.2.1, hxy.2],
-              by simp only [List.map_append, hab.2.2]⟩
+              by rw [hab.2.2]⟩
         | spread fid fr =>
           unfold calcVariantSels
           simp only [H.q, H.cs, hrf]
@@ -388,6 +393,16 @@ theorem calc_congr {c c' : Ctx} (H : CalcAgree f c c') : ∀ fuel,
         | typename =>
           unfold calcFields
           exact ihF pfx t rest
+
+theorem calc_congr {c c' : Ctx} (H : CalcAgree f c c') : ∀ fuel,
+    (∀ name pfx t sels, ORel (RI f) (calcSelection c fuel name pfx t sels) (calcSelection c' fuel name pfx t sels)) ∧
+    (∀ name pfx vsels vts, ORel (RP f) (calcVariants c fuel name pfx vsels vts) (calcVariants c' fuel name pfx vsels vts)) ∧
+    (∀ sname pfx vt vsels, ORel (RT f) (calcVariantSels c fuel sname pfx vt vsels) (calcVariantSels c' fuel sname pfx vt vsels)) ∧
+    (∀ pfx t sels, ORel (RP f) (calcFields c fuel pfx t sels) (calcFields c' fuel pfx t sels)) := by
+  intro fuel
+  obtain ⟨h1, h2, h3, h4⟩ := calc_congr_strong f H fuel
+  exact ⟨h1, h2, fun sname pfx vt vsels =>
+    (h3 sname pfx vt vsels).mono (fun a b hab => ⟨hab.1, hab.2.1, by rw [hab.2.2]⟩), h4⟩
 end calcCongr
 
 /-! ### the module level -/
